@@ -676,6 +676,11 @@ def run(chk):
     from contracts import C10, C11
     chk.under_contract(RK + ":_RK45._integrate_rk45", RK + ":_DOP853._integrate_dop853",
                        RK + ":_RK45._integrate_rk45_until_event", RK + ":_DOP853._integrate_dop853_until_event")
+    # dense-output phase of the adaptive drivers ("at every requested output time"): bounded float instance shared with C10
+    C10._dense_phase_bounded(chk)
+    chk.under_contract(RK + ":_RK45._integrate_rk45_ham", RK + ":_DOP853._integrate_dop853_ham",
+                       RK + ":_RK45._integrate_rk45_until_event_ham", RK + ":_DOP853._integrate_dop853_until_event_ham")
     for kind in ("rk45", "dop853"):
-        C10._stepping_loop(chk, kind, only=[C10.ESC])
-        C11._adaptive_driver(chk, kind, only=[C10.ESC])
+        for ham in (False, True):       # all eight duplicated call sites
+            C10._stepping_loop(chk, kind, ham=ham, only=[C10.ESC])
+            C11._adaptive_driver(chk, kind, ham=ham, only=[C10.ESC])
